@@ -174,7 +174,9 @@ class Ctx(Partial):
         harness_err = None
         rfn = getattr(self.module, "replay", None)
         for sig, what, rp in new:
-            if rfn is None:
+            if rfn is None or (isinstance(rp, dict) and rp.get("__hang__")):
+                # a non-terminating case is not replayed in this process (it would hang the runner too); the
+                # watchdog already observed it against a hard deadline
                 confirmed.append((sig, what, rp))
                 continue
             try:
